@@ -90,9 +90,12 @@ type worker struct {
 var workers []*worker
 
 func initWorkers() {
-	n := runtime.NumCPU()
-	if n > 12 {
-		n = 12
+	// one worker by default: building a Connector is bound by page faults on the 2 MB dataPlane
+	// value, which do not parallelise (measured: 1 worker 32 s, 4 workers 57 s for the same cases)
+	n := 1
+	_ = runtime.NumCPU
+	if v, err := strconv.Atoi(os.Getenv("RCFG_WORKERS")); err == nil && v > 0 {
+		n = v
 	}
 	for i := 0; i < n; i++ {
 		w := &worker{alias: fmt.Sprintf("%s-%d", aliasUL, i)}
@@ -741,7 +744,7 @@ func runC11(e *vlib.Env) {
 	perms := permutations(base)
 	withSvc := permutations([]string{"P", "I", "A", "E2", "N2"})
 	perms = append(perms, withSvc...)
-	rounds := e.N(3, 12)
+	rounds := e.N(1, 8)
 	for round := 0; round < rounds; round++ {
 		for _, kinds := range perms {
 			rg := genRange(r)
@@ -753,7 +756,7 @@ func runC11(e *vlib.Env) {
 			}
 			s, en, _ := configured(ov, cs)
 			var pkts []*pkt
-			for k := 0; k < 8; k++ {
+			for k := 0; k < 16; k++ {
 				pkts = append(pkts, genPkt(r, pickPort(r, s, en), s, en, cs))
 			}
 			seqJob(ov, cs, reuse, pkts, "permutation", true)
@@ -762,7 +765,7 @@ func runC11(e *vlib.Env) {
 
 	// (3) random call sequences
 	pool := []string{"P", "P'", "I", "I", "E", "E2", "N", "N2", "K", "A", "A", "A", "D", "P"}
-	n := e.N(2500, 30000)
+	n := e.N(350, 6000)
 	for i := 0; i < n; i++ {
 		ln := 1 + r.Intn(9)
 		kinds := make([]string, ln)
@@ -795,7 +798,7 @@ func runC11(e *vlib.Env) {
 			s, en = rg.s, rg.e
 		}
 		var pkts []*pkt
-		for k := 0; k < 6; k++ {
+		for k := 0; k < 16; k++ {
 			pkts = append(pkts, genPkt(r, pickPort(r, s, en), s, en, cs))
 		}
 		seqJob(ov, cs, reuse, pkts, "random-sequence", true)
@@ -834,7 +837,7 @@ func runC11(e *vlib.Env) {
 	}
 
 	// (5) the real start-up path
-	nb := e.N(80, 800)
+	nb := e.N(30, 400)
 	for i := 0; i < nb; i++ {
 		jobs = append(jobs, bootCase(r))
 	}
@@ -1067,7 +1070,7 @@ func bootCase(r *vlib.Rand) job {
 	calls := bootCalls(rg.s, rg.e)
 	s, en, _ := configured(ov, calls)
 	var pkts []*pkt
-	for k := 0; k < 12; k++ {
+	for k := 0; k < 24; k++ {
 		pkts = append(pkts, genPkt(r, pickPort(r, s, en), s, en, calls))
 	}
 	return func(w *worker, sk *sink) {
@@ -1159,7 +1162,7 @@ func runC17(e *vlib.Env) {
 		"(site, link kind, sizes)"
 	pool := []string{"I", "E", "E", "E2", "E2", "N", "N2", "N2", "P", "K", "A"}
 	var jobs []job
-	n := e.N(3000, 60000)
+	n := e.N(600, 9000)
 	for i := 0; i < n; i++ {
 		rcv, snd, batch := genSize(r), genSize(r), 1+r.Intn(256)
 		if r.Chance(3) {
@@ -1183,7 +1186,7 @@ func runC17(e *vlib.Env) {
 			checkSockets(sk, rt, rcv, snd, batch, "direct configuration calls", cs)
 		})
 	}
-	nb := e.N(100, 1000)
+	nb := e.N(40, 500)
 	for i := 0; i < nb; i++ {
 		rcv, snd, batch := genSize(r), genSize(r), 1+r.Intn(256)
 		reuse := r.Bool()
@@ -1204,7 +1207,9 @@ func main() {
 	e := vlib.Init()
 	// NewConnector copies the 1.6 MB dataPlane value several times; keep the collector (and its
 	// write barriers) out of the way
-	debug.SetGCPercent(1000)
+	if os.Getenv("GOGC") == "" {
+		debug.SetGCPercent(100)
+	}
 	if pf := os.Getenv("RCFG_PROF"); pf != "" {
 		f, _ := os.Create(pf)
 		_ = pprof.StartCPUProfile(f)
